@@ -425,6 +425,11 @@ LIST_CASES = [      # (plain, written with braces / calls, expected visits)
      'define q_r begin println 1 end time at 8:00[q_r]', [1]),
     ('define q_s with q_t q_x println q_x q_s 6:30 {1 + 2}',
      'define q_s with q_t q_x println q_x q_s 6:30{1 + 2}', [3]),
+    # begin / end are optional round a one-command body, whatever the command
+    ('define q_five begin return 5 end println [q_five]',
+     'define q_five return 5 println [q_five]', [5]),
+    ('define q_w begin wait end q_w println 2', 'define q_w wait q_w println 2',
+     [2]),
     # braces round the single constant of a macro
     ('define q_m 5 println q_m', 'define q_m {5} println q_m', [5]),
     ('define q_m "A" on q_m println q_m', 'define q_m {"A"} on q_m println q_m',
